@@ -16,7 +16,7 @@ registers, followed by the end of the cycle.  Observations: the four registers a
 next machine cycle returns them, and whether the timer interrupt was requested in this cycle.
 -/
 namespace Tetro.Spec.Timer
-open Tetro.Timer (Write Obs)
+open Tetro.Timer (Write Obs Call)
 
 structure St where
   sys        : Nat    -- 16-bit system counter, DIV is its upper byte
@@ -120,6 +120,21 @@ def observe (s : St) : List (Option Write) → List Obs
   | w :: ws => cycleObs s w :: observe (cycle s w) ws
 
 def run (s : St) (ws : List (Option Write)) : St := ws.foldl cycle s
+
+/-! ### registers that do not depend on the edge detector, for ANY order of single events -/
+
+def sysEvent (sys : Nat) : Call → Nat
+  | .tick => sysNext sys
+  | .write .div => 0
+  | .write _ => sys
+
+def tmaEvent (tma : Nat) : Call → Nat
+  | .write (.tma v) => v
+  | _ => tma
+
+def tacEvent (tac : Nat) : Call → Nat
+  | .write (.tac v) => v
+  | _ => tac
 
 /-! ### closed forms used by the rate / DIV corollaries -/
 
